@@ -2082,7 +2082,9 @@ ZSTD_reset_matchState(ZSTD_matchState_t* ms,
         {   /* Switch to 32-entry rows if searchLog is 5 (or more) */
             U32 const rowLog = BOUNDED(4, cParams->searchLog, 6);
             assert(cParams->hashLog >= rowLog);
-            ms->rowHashLog = cParams->hashLog - rowLog;
+            /* the row index and its tag are taken from one 32-bit hash (see ZSTD_adjustCParams_internal()) :
+             * parameters that were not adjusted (ZSTD_compress_advanced()) only use the rows that can be addressed */
+            ms->rowHashLog = MIN(cParams->hashLog - rowLog, 32 - ZSTD_ROW_HASH_TAG_BITS);
         }
     }
 
